@@ -1626,3 +1626,30 @@ TABLE["C19"] += [
     B("blank-lines-trimmed-by-an-ambiguous-regex", {"Z8"}, (IP + "module.py", "        return Module.rule.parseString(s)[0]", "        import re\n        s = re.sub(r'(\\s*\\n)+$', '\\n', s)\n        return Module.rule.parseString(s)[0]")),
     N("blank-lines-trimmed-by-rstrip", (IP + "module.py", "        return Module.rule.parseString(s)[0]", "        s = s.rstrip() + '\\n'\n        return Module.rule.parseString(s)[0]")),
 ]
+
+# round 9
+TABLE["C05"] += [
+    B("every-static-overload-registered-as-the-first", {"I8"},
+      (MW, "                         static_overload.name, static_overload)),", "                         static_method[0].name, static_method[0])),")),
+    B("every-method-overload-registered-as-the-first", {"I8"},
+      (MW, "                             overload.original.name, overload)),", "                             method[0].original.name, method[0])),")),
+    B("every-free-overload-registered-as-the-first", {"I8"},
+      (MW, "                                                function[i], 'global_function',", "                                                function[0], 'global_function',")),
+    N("overload-entry-through-a-local", (MW, "                         static_overload.name, static_overload)),", "                         static_overload.name, [static_overload][0])),")),
+    B("gateway-name-changed-in-one-place", {"I3"}, (MW, "        return self.module_name + '_wrapper'", "        return self.module_name + '_gateway'")),
+    B("gateway-name-special-cased", {"I3"},
+      (MW, "        return self.module_name + '_wrapper'", "        if self.module_name.endswith('_wrapper'):\n            return self.module_name\n        return self.module_name + '_wrapper'")),
+    N("free-function-calls-the-named-gateway",
+      (MW, "                {varargout}{module_name}_wrapper({num}, varargin{{:}});\n            ''').format(varargout=varargout,",
+       "                {varargout}{wrapper}({num}, varargin{{:}});\n            ''').format(varargout=varargout, wrapper=self._wrapper_name(),")),
+]
+TABLE["C10"] += [
+    B("free-function-named-like-an-ignored-method-dropped", {"T16"}, (MW, "            if method in self.ignore_methods:\n                continue\n", "            if method[0].name in self.ignore_methods:\n                continue\n")),
+    B("free-functions-filtered-before-grouping", {"T16"}, (MW, "        methods = self._group_methods(methods)\n\n        for method in methods:",
+                                                        "        methods = self._group_methods([m for m in methods if m.name not in self.ignore_methods])\n\n        for method in methods:")),
+    N("dead-group-filter-removed", (MW, "            if method in self.ignore_methods:\n                continue\n\n            if global_funcs:", "            if global_funcs:")),
+    N("groups-through-a-local", (MW, "        methods = self._group_methods(methods)\n\n        for method in methods:", "        groups = self._group_methods(methods)\n\n        for method in groups:")),
+]
+TABLE["C06"] += [
+    B("given-names-joined-into-a-string", {"M4"}, (MW, "        explicit_arg_names = [arg.name for arg in args.list()]", "        explicit_arg_names = ','.join(arg.name for arg in args.list())")),
+]
